@@ -14,7 +14,7 @@
 #include <pixman.h>
 #include "c12_ref.h"
 
-#define MAXPIX 96
+#define MAXPIX C12_MAXPIX
 #define GUARD_ROWS 2
 #define FARX (1000 * 65536)
 
@@ -38,6 +38,18 @@ static void timg_init(timg *m, pixman_format_code_t fmt, int W, int H)
     if (!m->pi) { fprintf(stderr, "image creation failed\n"); abort(); }
 }
 static void timg_fini(timg *m) { pixman_image_unref(m->pi); free(m->base); }
+
+/* Per-process scratch images, re-created only when format/size change (a worker process runs one space, so this saves an
+ * image allocation per case).  Every user resets the image before drawing, so no state is carried between cases. */
+static timg *timg_cached(int slot, pixman_format_code_t fmt, int W, int H)
+{
+    static timg cache[4]; static int have[4];
+    timg *m = &cache[slot];
+    if (have[slot] && m->fmt == fmt && m->W == W && m->H == H) return m;
+    if (have[slot]) timg_fini(m);
+    timg_init(m, fmt, W, H); have[slot] = 1;
+    return m;
+}
 
 static inline int timg_get(const timg *m, int x, int y)
 {
@@ -114,68 +126,100 @@ static const char *trap_str(const pixman_trapezoid_t *t, char *buf, size_t cap)
     return buf;
 }
 
+/* The textual description of the running case is only needed for failures, samples and replays: built on demand. */
+static struct {
+    int kind;                 /* 0 raster, 1 offsets, 2 shared edge, 3 triangle */
+    int bpp, W, H, bg, ox, oy, strict;
+    pixman_trapezoid_t T; pixman_line_fixed_t M; pixman_triangle_t tri;
+} G;
+static char g_desc[900]; static int g_desc_ok;
+static const char *cur_desc(void)
+{
+    if (g_desc_ok) return g_desc;
+    char ts[300]; const char *fn = G.bpp == 8 ? "a8" : G.bpp == 4 ? "a4" : "a1";
+    switch (G.kind) {
+    case 0: snprintf(g_desc, sizeof g_desc, "%s %dx%d bg%d %s", fn, G.W, G.H, G.bg, trap_str(&G.T, ts, sizeof ts)); break;
+    case 1: snprintf(g_desc, sizeof g_desc, "%s %dx%d x_off=%d y_off=%d %s", fn, G.W, G.H, G.ox, G.oy, trap_str(&G.T, ts, sizeof ts)); break;
+    case 2: snprintf(g_desc, sizeof g_desc, "%s %dx%d %s middle line (%d,%d)-(%d,%d)%s", fn, G.W, G.H, trap_str(&G.T, ts, sizeof ts), G.M.p1.x, G.M.p1.y, G.M.p2.x, G.M.p2.y,
+                     G.strict ? " [lines >= 2 ulp apart or identical: strict]" : ""); break;
+    default: snprintf(g_desc, sizeof g_desc, "%s %dx%d x_off=%d y_off=%d tri{(%d,%d) (%d,%d) (%d,%d)}", fn, G.W, G.H, G.ox, G.oy, G.tri.p1.x, G.tri.p1.y, G.tri.p2.x, G.tri.p2.y,
+                      G.tri.p3.x, G.tri.p3.y); break;
+    }
+    g_desc_ok = 1;
+    return g_desc;
+}
+
 /* ------------------------------------------------------------------------------------------------ judging */
 
+/* "soft" = difference explained by the recorded edge-position findings; raised at the end of the case unless a hard violation
+ * was found.  level 1: inside the one-ulp window (c12-edge-one-ulp); level 2: 1-bit only, inside the two-ulp window
+ * (c12-a1-edge-two-ulp).  The higher level wins. */
 static int soft_set; static char soft_text[1500];
-static void soft(const char *fmt, ...) __attribute__((format(printf, 1, 2)));
-static void soft(const char *fmt, ...)
+static void soft(int level, const char *fmt, ...) __attribute__((format(printf, 2, 3)));
+static void soft(int level, const char *fmt, ...)
 {
-    if (soft_set) return;
-    soft_set = 1;
+    if (soft_set >= level) return;
+    soft_set = level;
     va_list ap; va_start(ap, fmt); vsnprintf(soft_text, sizeof soft_text, fmt, ap); va_end(ap);
 }
 static void soft_flush(void)
 {
-    if (soft_set && !vf_failed()) vf_violation("c12-edge-one-ulp", "%s", soft_text);
+    if (soft_set && !vf_failed()) vf_violation(soft_set == 2 ? "c12-a1-edge-two-ulp" : "c12-edge-one-ulp", "%s", soft_text);
     soft_set = 0;
 }
 
-/* 0 = equals the ideal rule, 1 = differs but every pixel inside [lo,hi], 2 = some pixel outside; (*px,*py) first offender */
-static int judge(const c12_grid *g, const timg *m, const int *bg, const int *ideal, const int *lo, const int *hi, int *px, int *py)
+/* 0 = equals the ideal rule, 1 = differs but every pixel inside the one-ulp window [lo,hi], 2 = (1-bit only) inside the
+ * two-ulp window, 3 = some pixel outside; (*px,*py) = first pixel of the worst class */
+static int judge(const c12_grid *g, const timg *m, const int *bg, const c12_counts *rc, int *px, int *py)
 {
     int res = 0;
     for (int y = 0; y < m->H; y++) for (int x = 0; x < m->W; x++) {
-        int i = y * m->W + x, b = bg ? bg[i] : 0, got = timg_get(m, x, y);
-        if (got == sat_expect(g, b, ideal[i])) continue;
-        if (got >= sat_expect(g, b, lo[i]) && got <= sat_expect(g, b, hi[i])) { if (res < 1) { res = 1; *px = x; *py = y; } }
-        else { if (res < 2) { *px = x; *py = y; } res = 2; }
+        int i = y * m->W + x, b = bg ? bg[i] : 0, got = timg_get(m, x, y), cls;
+        if (got == sat_expect(g, b, rc->ideal[i])) continue;
+        if (got >= sat_expect(g, b, rc->lo[i]) && got <= sat_expect(g, b, rc->hi[i])) cls = 1;
+        else if (g->bpp == 1 && got >= sat_expect(g, b, rc->lo2[i]) && got <= sat_expect(g, b, rc->hi2[i])) cls = 2;
+        else cls = 3;
+        if (cls > res) { res = cls; *px = x; *py = y; }
     }
     return res;
 }
 
 /* compare an image with the reference; raises the hard violation or records the soft one */
-static void check_vs_ref(const c12_grid *g, const timg *m, const int *bg, const int *ideal, const int *lo, const int *hi,
-                         const char *what, const char *desc)
+static void check_vs_ref(const c12_grid *g, const timg *m, const int *bg, const c12_counts *rc, const char *what, const char *desc)
 {
     if (vf_failed()) return;
-    if (!timg_frame_ok(m)) { vf_violation("c12-write-outside-image", "%s: guard rows or row padding modified; %s", what, desc); return; }
-    int px = 0, py = 0, r = judge(g, m, bg, ideal, lo, hi, &px, &py);
+    if (!timg_frame_ok(m)) { vf_violation("c12-write-outside-image", "%s: guard rows or row padding modified; %s", what, desc ? desc : cur_desc()); return; }
+    int px = 0, py = 0, r = judge(g, m, bg, rc, &px, &py);
     if (!r) return;
+    if (!desc) desc = cur_desc();
     char a[700], b[500], c[500], d[500];
     int i = py * m->W + px;
-    if (r == 2)
+    if (r == 3)
         vf_violation("c12-wrong-count", "%s: pixel (%d,%d) got %d, ideal %d, one-ulp window [%d,%d] (before saturation, background %d); %s; got %s ideal %s",
-                     what, px, py, timg_get(m, px, py), ideal[i], lo[i], hi[i], bg ? bg[i] : 0, desc, timg_str(m, a, sizeof a),
-                     arr_str(ideal, m->W, m->H, m->bpp, b, sizeof b));
+                     what, px, py, timg_get(m, px, py), rc->ideal[i], rc->lo[i], rc->hi[i], bg ? bg[i] : 0, desc, timg_str(m, a, sizeof a),
+                     arr_str(rc->ideal, m->W, m->H, m->bpp, b, sizeof b));
     else
-        soft("%s: pixel (%d,%d) got %d, ideal %d, one-ulp window [%d,%d] (background %d); %s; got %s ideal %s lo %s hi %s", what, px, py,
-             timg_get(m, px, py), ideal[i], lo[i], hi[i], bg ? bg[i] : 0, desc, timg_str(m, a, sizeof a), arr_str(ideal, m->W, m->H, m->bpp, b, sizeof b),
-             arr_str(lo, m->W, m->H, m->bpp, c, sizeof c), arr_str(hi, m->W, m->H, m->bpp, d, sizeof d));
+        soft(r, "%s: pixel (%d,%d) got %d, ideal %d, one-ulp window [%d,%d]%s (background %d); %s; got %s ideal %s lo %s hi %s", what, px, py,
+             timg_get(m, px, py), rc->ideal[i], rc->lo[i], rc->hi[i], r == 2 ? " - outside it, inside the two-ulp window" : "", bg ? bg[i] : 0, desc,
+             timg_str(m, a, sizeof a), arr_str(rc->ideal, m->W, m->H, m->bpp, b, sizeof b),
+             arr_str(rc->lo, m->W, m->H, m->bpp, c, sizeof c), arr_str(rc->hi, m->W, m->H, m->bpp, d, sizeof d));
 }
 
-/* metamorphic equality a == b.  strict: any difference is a violation under `key`.  Otherwise a difference is the one-ulp
- * finding iff both images lie inside the [lo,hi] window of the reference for the shape, else a violation under `key`. */
-static void check_same(const c12_grid *g, const timg *a, const timg *b, int strict, const int *bg, const int *ideal, const int *lo, const int *hi,
+/* metamorphic equality a == b.  strict: any difference is a violation under `key`.  Otherwise a difference is the edge-position
+ * finding iff both images lie inside the window of the reference for the shape, else a violation under `key`. */
+static void check_same(const c12_grid *g, const timg *a, const timg *b, int strict, const int *bg, const c12_counts *rc,
                        const char *key, const char *what, const char *desc)
 {
     if (vf_failed()) return;
     if (timg_same(a, b)) return;
+    if (!desc) desc = cur_desc();
     char s1[700], s2[700];
     if (!strict && timg_frame_ok(a) && timg_frame_ok(b)) {
         int px, py;
-        int ra = judge(g, a, bg, ideal, lo, hi, &px, &py), rb = judge(g, b, bg, ideal, lo, hi, &px, &py);
-        if (ra < 2 && rb < 2) {
-            soft("%s: the two results differ only inside the one-ulp window; %s; A %s B %s", what, desc, timg_str(a, s1, sizeof s1), timg_str(b, s2, sizeof s2));
+        int ra = judge(g, a, bg, rc, &px, &py), rb = judge(g, b, bg, rc, &px, &py);
+        if (ra < 3 && rb < 3) {
+            int r = ra > rb ? ra : rb; if (r < 1) r = 1;
+            soft(r, "%s: the two results differ only inside the %s-ulp window; %s; A %s B %s", what, r == 2 ? "two" : "one", desc, timg_str(a, s1, sizeof s1), timg_str(b, s2, sizeof s2));
             return;
         }
     }
@@ -198,7 +242,7 @@ typedef struct {
     pixman_format_code_t fmt; int bpp, W, H; c12_grid g;
     int nY; int32_t Y[48]; int npairs; uint8_t pt[1200], pb[1200];
     int nX; int32_t X[24];
-    int nvar;                 /* edge end-point variants per edge */
+    int nvar; int vars[4];    /* edge end-point variants per edge (see make_line) */
     int nbg;
     int level;                /* 0 quick, 1 thorough */
     int dims[12], nd;
@@ -213,7 +257,7 @@ static int uniq_sort(int32_t *v, int n)
     return k;
 }
 
-/* y alphabet: size 0 small (6), 1 medium (~10), 2 large (~20) */
+/* y alphabet: size 0 small (6), 1 medium (11), 2 large (~21) */
 static void make_Y(tctx *c, int size)
 {
     const c12_grid *g = &c->g; int H = c->H, n = 0; int32_t *Y = c->Y;
@@ -222,10 +266,10 @@ static void make_Y(tctx *c, int size)
         int32_t v[] = { -32768, r0, 16384 + 1, rl + 1, H * 65536 - 16384, H * 65536 + 32768 };
         for (unsigned i = 0; i < sizeof v / sizeof v[0]; i++) Y[n++] = v[i];
     } else {
-        int32_t v[] = { -65536, 0, r0, r0 + 1, 16384, 32768, rl + 1, H * 65536 - 16384, H * 65536, H * 65536 + 65536 };
+        int32_t v[] = { -65536, 0, r0 - 1, r0, r0 + 1, 16384, 32768, rl + 1, H * 65536 - 16384, H * 65536, H * 65536 + 65536 };
         for (unsigned i = 0; i < sizeof v / sizeof v[0]; i++) Y[n++] = v[i];
         if (size >= 2) {
-            int32_t w[] = { -1, r0 - 1, 32767, 32769, 49152, rl, 65536, rm - 1, rm, rm + 1, H * 65536 + 1 };
+            int32_t w[] = { -1, 32767, 32769, 49152, rl, 65536, rm - 1, rm, rm + 1, H * 65536 + 1 };
             for (unsigned i = 0; i < sizeof w / sizeof w[0]; i++) Y[n++] = w[i];
         }
     }
@@ -257,6 +301,10 @@ static pixman_line_fixed_t make_line(int32_t xa, int32_t xb, int32_t top, int32_
     case 0: l.p1.x = xa; l.p1.y = top; l.p2.x = xb; l.p2.y = bot; break;
     case 1: l.p1.x = xb; l.p1.y = bot + D1; l.p2.x = xa; l.p2.y = top - D1; break;      /* longer line, points given bottom-up */
     case 2: l.p1.x = xa; l.p1.y = top - D2; l.p2.x = xb; l.p2.y = bot + 1; break;       /* long lead-in above the top */
+    case 3: {                                                                          /* segment strictly inside (top,bottom): the edge is the */
+        int32_t h = bot - top, ya = top + h / 3, yb = bot - h / 3;                      /* line extrapolated upwards (negative edge step) and downwards */
+        if (ya >= yb) { ya = top; yb = bot; }
+        l.p1.x = xa; l.p1.y = ya; l.p2.x = xb; l.p2.y = yb; break; }
     }
     return l;
 }
@@ -269,6 +317,7 @@ static void make_bg(const c12_grid *g, int W, int H, int kind, int *bg)
 
 static void note_case(const c12_grid *g, const timg *m, const int *ideal, const char *desc)
 {
+    if (!desc && !vf_in_confirm && vf_want_sample()) desc = cur_desc();
     int W = m->W, H = m->H, any = 0, partial = 0, clear = 0;
     for (int i = 0; i < W * H; i++) { if (ideal[i] > 0) any = 1; if (ideal[i] > 0 && ideal[i] < g->maxv) partial = 1; if (ideal[i] == 0) clear = 1; }
     int nt = g->bpp == 1 ? (any && clear) : partial;
@@ -277,7 +326,7 @@ static void note_case(const c12_grid *g, const timg *m, const int *ideal, const 
     if (!vf_in_confirm) {
         uint64_t h = vf_hash64(m->bits, (size_t)m->stride * H, (uint64_t)m->fmt * 131 + (uint64_t)W * 17 + (uint64_t)H);
         vf_outcome(h);
-        if (nt && vf_want_sample()) { char a[400]; vf_sample("%s -> %s", desc, timg_str(m, a, sizeof a)); }
+        if (nt && desc && vf_want_sample()) { char a[400]; vf_sample("%s -> %s", desc, timg_str(m, a, sizeof a)); }
     }
 }
 
@@ -290,22 +339,25 @@ static void ras_case(uint64_t idx, void *vctx)
     int W = c->W, H = c->H;
     int32_t top = c->Y[c->pt[d[0]]], bot = c->Y[c->pb[d[0]]];
     pixman_trapezoid_t T; T.top = top; T.bottom = bot;
-    T.left = make_line(c->X[d[1]], c->X[d[2]], top, bot, d[5]);
-    T.right = make_line(c->X[d[3]], c->X[d[4]], top, bot, d[6]);
+    int vL = c->vars[d[5]], vR = c->vars[d[6]];
+    T.left = make_line(c->X[d[1]], c->X[d[2]], top, bot, vL);
+    T.right = make_line(c->X[d[3]], c->X[d[4]], top, bot, vR);
     int bgk = d[7];
-    int bg[MAXPIX], ideal[MAXPIX] = { 0 }, lo[MAXPIX] = { 0 }, hi[MAXPIX] = { 0 };
+    int bg[MAXPIX]; c12_counts rc; memset(&rc, 0, sizeof rc); int *ideal = rc.ideal, *lo = rc.lo, *hi = rc.hi;
     make_bg(g, W, H, bgk, bg);
-    char desc[500], ts[300];
-    snprintf(desc, sizeof desc, "%s %dx%d bg%d %s", c->bpp == 8 ? "a8" : c->bpp == 4 ? "a4" : "a1", W, H, bgk, trap_str(&T, ts, sizeof ts));
-    if (vf_verbose) printf("  case: %s\n", desc);
+    const char *desc = NULL;
+    G.kind = 0; G.bpp = c->bpp; G.W = W; G.H = H; G.bg = bgk; G.T = T; g_desc_ok = 0;
+    if (vf_verbose) printf("  case: %s\n", cur_desc());
     soft_set = 0;
 
-    timg A, B; timg_init(&A, c->fmt, W, H); timg_init(&B, c->fmt, W, H);
+    timg *pA = timg_cached(0, c->fmt, W, H), *pB = timg_cached(1, c->fmt, W, H);
+#define A (*pA)
+#define B (*pB)
     timg_reset(&A, bg);
     pixman_rasterize_trapezoid(A.pi, &T, 0, 0); vf_count_libcalls(1);
-    c12_ref_trap(g, W, H, &T, 0, 0, ideal, lo, hi);
+    c12_ref_trap(g, W, H, &T, 0, 0, &rc);
     if (vf_verbose) { char a[700], b[500], l[500], h[500]; printf("  got   %s\n  ideal %s\n  lo    %s\n  hi    %s\n", timg_str(&A, a, sizeof a), arr_str(ideal, W, H, c->bpp, b, sizeof b), arr_str(lo, W, H, c->bpp, l, sizeof l), arr_str(hi, W, H, c->bpp, h, sizeof h)); }
-    check_vs_ref(g, &A, bg, ideal, lo, hi, "rasterize_trapezoid vs ideal sample count", desc);
+    check_vs_ref(g, &A, bg, &rc, "rasterize_trapezoid vs ideal sample count", desc);
 
     /* accessor path must give the same bits */
     if (c->do_acc && !vf_failed()) {
@@ -313,14 +365,14 @@ static void ras_case(uint64_t idx, void *vctx)
         pixman_image_set_accessors(B.pi, acc_read, acc_write);
         pixman_rasterize_trapezoid(B.pi, &T, 0, 0); vf_count_libcalls(1);
         pixman_image_set_accessors(B.pi, NULL, NULL);
-        check_same(g, &A, &B, 1, bg, ideal, lo, hi, "c12-accessor-path-differs", "accessor vs direct rasterisation", desc);
+        check_same(g, &A, &B, 1, bg, &rc, "c12-accessor-path-differs", "accessor vs direct rasterisation", desc);
     }
     /* pixman_add_traps with the same edges (only when the lines end exactly on top/bottom) */
-    if (d[5] == 0 && d[6] == 0 && !vf_failed()) {
+    if (vL == 0 && vR == 0 && !vf_failed()) {
         pixman_trap_t tr = { { c->X[d[1]], c->X[d[3]], top }, { c->X[d[2]], c->X[d[4]], bot } };
         timg_reset(&B, bg);
         pixman_add_traps(B.pi, 0, 0, 1, &tr); vf_count_libcalls(1);
-        check_same(g, &A, &B, 1, bg, ideal, lo, hi, "c12-add-traps-differs", "add_traps vs rasterize_trapezoid", desc);
+        check_same(g, &A, &B, 1, bg, &rc, "c12-add-traps-differs", "add_traps vs rasterize_trapezoid", desc);
     }
     /* horizontal split at every alphabet value strictly inside */
     if (c->do_split)
@@ -329,11 +381,19 @@ static void ras_case(uint64_t idx, void *vctx)
             timg_reset(&B, bg);
             pixman_rasterize_trapezoid(B.pi, &T1, 0, 0); pixman_rasterize_trapezoid(B.pi, &T2, 0, 0); vf_count_libcalls(2);
             char w[80]; snprintf(w, sizeof w, "split at y=%d: whole (A) vs two halves (B)", c->Y[k]);
-            check_same(g, &A, &B, 0, bg, ideal, lo, hi, "c12-hsplit-not-additive", w, desc);
+            check_same(g, &A, &B, 0, bg, &rc, "c12-hsplit-not-additive", w, desc);
         }
     note_case(g, &A, ideal, desc);
     soft_flush();
-    timg_fini(&A); timg_fini(&B);
+#undef A
+#undef B
+}
+
+/* nvar > 0: variants 0..nvar-1; nvar == -3: only the extrapolating variant 3 */
+static void set_vars(tctx *c, int nvar)
+{
+    if (nvar < 0) { c->nvar = 1; c->vars[0] = -nvar; return; }
+    c->nvar = nvar; for (int i = 0; i < nvar; i++) c->vars[i] = i;
 }
 
 static void ras_setup(tctx *c, pixman_format_code_t fmt, int W, int H, int ysz, int xsz, int nvar, int nbg, int split, int acc)
@@ -341,8 +401,8 @@ static void ras_setup(tctx *c, pixman_format_code_t fmt, int W, int H, int ysz, 
     memset(c, 0, sizeof *c);
     c->fmt = fmt; c->bpp = PIXMAN_FORMAT_BPP(fmt); c->W = W; c->H = H; c->g = c12_mkgrid(c->bpp);
     make_Y(c, ysz); make_X(c, xsz);
-    c->nvar = nvar; c->nbg = nbg; c->do_split = split; c->do_acc = acc;
-    int dims[] = { c->npairs, c->nX, c->nX, c->nX, c->nX, nvar, nvar, nbg };
+    set_vars(c, nvar); c->nbg = nbg; c->do_split = split; c->do_acc = acc;
+    int dims[] = { c->npairs, c->nX, c->nX, c->nX, c->nX, c->nvar, c->nvar, nbg };
     c->nd = 8; memcpy(c->dims, dims, sizeof dims);
 }
 
@@ -355,17 +415,18 @@ static void off_case(uint64_t idx, void *vctx)
     int W = c->W, H = c->H, ox = d[6] - 1, oy = d[7] - 1;
     int32_t top = c->Y[c->pt[d[0]]], bot = c->Y[c->pb[d[0]]];
     pixman_trapezoid_t T; T.top = top; T.bottom = bot;
-    T.left = make_line(c->X[d[1]], c->X[d[2]], top, bot, d[5]);
-    T.right = make_line(c->X[d[3]], c->X[d[4]], top, bot, d[5]);
-    int ideal[MAXPIX] = { 0 }, lo[MAXPIX] = { 0 }, hi[MAXPIX] = { 0 };
-    char desc[500], ts[300];
-    snprintf(desc, sizeof desc, "%s %dx%d x_off=%d y_off=%d %s", c->bpp == 8 ? "a8" : c->bpp == 4 ? "a4" : "a1", W, H, ox, oy, trap_str(&T, ts, sizeof ts));
-    if (vf_verbose) printf("  case: %s\n", desc);
+    int vE = c->vars[d[5]];
+    T.left = make_line(c->X[d[1]], c->X[d[2]], top, bot, vE);
+    T.right = make_line(c->X[d[3]], c->X[d[4]], top, bot, vE);
+    c12_counts rc; memset(&rc, 0, sizeof rc); int *ideal = rc.ideal, *lo = rc.lo, *hi = rc.hi;
+    const char *desc = NULL;
+    G.kind = 1; G.bpp = c->bpp; G.W = W; G.H = H; G.ox = ox; G.oy = oy; G.T = T; g_desc_ok = 0;
+    if (vf_verbose) printf("  case: %s\n", cur_desc());
     soft_set = 0;
     timg A, B; timg_init(&A, c->fmt, W, H); timg_init(&B, c->fmt, W, H);
     pixman_rasterize_trapezoid(A.pi, &T, ox, oy); vf_count_libcalls(1);
-    c12_ref_trap(g, W, H, &T, ox, oy, ideal, lo, hi);
-    check_vs_ref(g, &A, NULL, ideal, lo, hi, "rasterize_trapezoid with x_off/y_off vs ideal sample count", desc);
+    c12_ref_trap(g, W, H, &T, ox, oy, &rc);
+    check_vs_ref(g, &A, NULL, &rc, "rasterize_trapezoid with x_off/y_off vs ideal sample count", desc);
     /* offsets applied to the geometry instead */
     {
         pixman_trapezoid_t S = T; int32_t fx = ox * 65536, fy = oy * 65536;
@@ -373,20 +434,20 @@ static void off_case(uint64_t idx, void *vctx)
         S.left.p1.y += fy; S.left.p2.y += fy; S.right.p1.y += fy; S.right.p2.y += fy;
         timg_reset(&B, NULL);
         pixman_rasterize_trapezoid(B.pi, &S, 0, 0); vf_count_libcalls(1);
-        check_same(g, &A, &B, 1, NULL, ideal, lo, hi, "c12-offset-not-commuting", "x_off/y_off (A) vs offsets added to the coordinates (B)", desc);
+        check_same(g, &A, &B, 1, NULL, &rc, "c12-offset-not-commuting", "x_off/y_off (A) vs offsets added to the coordinates (B)", desc);
     }
     /* pixman_add_trapezoids: [invalid, T] with the same offsets */
     {
         pixman_trapezoid_t two[2]; two[0] = T; two[0].bottom = two[0].top; two[1] = T;
         timg_reset(&B, NULL);
         pixman_add_trapezoids(B.pi, (int16_t)ox, oy, 2, two); vf_count_libcalls(1);
-        check_same(g, &A, &B, 1, NULL, ideal, lo, hi, "c12-add-trapezoids-differs", "rasterize_trapezoid (A) vs add_trapezoids of [empty, same] (B)", desc);
+        check_same(g, &A, &B, 1, NULL, &rc, "c12-add-trapezoids-differs", "rasterize_trapezoid (A) vs add_trapezoids of [empty, same] (B)", desc);
     }
-    if (d[5] == 0) {
+    if (vE == 0) {
         pixman_trap_t tr = { { c->X[d[1]], c->X[d[3]], top }, { c->X[d[2]], c->X[d[4]], bot } };
         timg_reset(&B, NULL);
         pixman_add_traps(B.pi, (int16_t)ox, (int16_t)oy, 1, &tr); vf_count_libcalls(1);
-        check_same(g, &A, &B, 1, NULL, ideal, lo, hi, "c12-add-traps-differs", "rasterize_trapezoid (A) vs add_traps (B) with offsets", desc);
+        check_same(g, &A, &B, 1, NULL, &rc, "c12-add-traps-differs", "rasterize_trapezoid (A) vs add_traps (B) with offsets", desc);
     }
     /* whole-pixel shift commutes: the same shape drawn without offset into a larger canvas, shifted window compared */
     if (!vf_failed()) {
@@ -402,13 +463,16 @@ static void off_case(uint64_t idx, void *vctx)
                 int i = y * W + x;
                 if (!bad) { bx = x; by = y; }
                 bad = 1;
-                if (vc < sat_expect(g, 0, lo[i]) || vc > sat_expect(g, 0, hi[i])) inwin = 0;
+                if (vc < sat_expect(g, 0, lo[i]) || vc > sat_expect(g, 0, hi[i])) {
+                    if (g->bpp == 1 && vc >= sat_expect(g, 0, rc.lo2[i]) && vc <= sat_expect(g, 0, rc.hi2[i])) { if (inwin == 1) inwin = 2; }
+                    else inwin = 0;
+                }
             }
         }
         if (bad) {
             char a[700], b[700];
-            if (inwin) soft("whole-pixel shift: pixel (%d,%d) differs from the same scene point on a larger canvas, inside the one-ulp window; %s; A %s canvas %s", bx, by, desc, timg_str(&A, a, sizeof a), timg_str(&C, b, sizeof b));
-            else vf_violation("c12-shift-not-commuting", "pixel (%d,%d) differs from the same scene point drawn on a larger canvas with offset (1,1); %s; A %s canvas %s", bx, by, desc, timg_str(&A, a, sizeof a), timg_str(&C, b, sizeof b));
+            if (inwin) soft(inwin, "whole-pixel shift: pixel (%d,%d) differs from the same scene point on a larger canvas, inside the one-ulp window; %s; A %s canvas %s", bx, by, cur_desc(), timg_str(&A, a, sizeof a), timg_str(&C, b, sizeof b));
+            else vf_violation("c12-shift-not-commuting", "pixel (%d,%d) differs from the same scene point drawn on a larger canvas with offset (1,1); %s; A %s canvas %s", bx, by, cur_desc(), timg_str(&A, a, sizeof a), timg_str(&C, b, sizeof b));
         }
         timg_fini(&C);
     }
@@ -421,8 +485,8 @@ static void off_setup(tctx *c, pixman_format_code_t fmt, int W, int H, int ysz, 
 {
     memset(c, 0, sizeof *c);
     c->fmt = fmt; c->bpp = PIXMAN_FORMAT_BPP(fmt); c->W = W; c->H = H; c->g = c12_mkgrid(c->bpp);
-    make_Y(c, ysz); make_X(c, xsz);
-    int dims[] = { c->npairs, c->nX, c->nX, c->nX, c->nX, nvar, 3, 3 };
+    make_Y(c, ysz); make_X(c, xsz); set_vars(c, nvar);
+    int dims[] = { c->npairs, c->nX, c->nX, c->nX, c->nX, c->nvar, 3, 3 };
     c->nd = 8; memcpy(c->dims, dims, sizeof dims);
 }
 
@@ -435,11 +499,10 @@ static void edge_case(uint64_t idx, void *vctx)
     int W = c->W, H = c->H;
     int32_t top = c->Y[c->pt[d[0]]], bot = c->Y[c->pb[d[0]]];
     pixman_trapezoid_t T, T1, T2; T.top = top; T.bottom = bot;
-    T.left = make_line(c->X[d[1]], c->X[d[2]], top, bot, d[7]);
-    T.right = make_line(c->X[d[3]], c->X[d[4]], top, bot, d[9]);
-    pixman_line_fixed_t M = make_line(c->X[d[5]], c->X[d[6]], top, bot, d[8]);
+    T.left = make_line(c->X[d[1]], c->X[d[2]], top, bot, c->vars[d[7]]);
+    T.right = make_line(c->X[d[3]], c->X[d[4]], top, bot, c->vars[d[9]]);
+    pixman_line_fixed_t M = make_line(c->X[d[5]], c->X[d[6]], top, bot, c->vars[d[8]]);
     T1 = T; T1.right = M; T2 = T; T2.left = M;
-    vf_count_eval(1);
     /* the identity is claimed only where the middle line lies between the outer ones at every sample row drawn */
     c12_line L = c12_mkline(&T.left, 0, 0), R = c12_mkline(&T.right, 0, 0), Mi = c12_mkline(&M, 0, 0);
     int between = 1, separated = 1, rows = 0;
@@ -452,24 +515,24 @@ static void edge_case(uint64_t idx, void *vctx)
         if (!(cl + 2 <= cm && cm + 2 <= cr)) separated = 0;
     }
     int same_as_L = !memcmp(&M, &T.left, sizeof M), same_as_R = !memcmp(&M, &T.right, sizeof M);
-    if (!between || !rows) return;
+    if (!between || !rows) return;      /* the identity is not claimed for this tuple */
+    vf_count_eval(1);
     int strict = separated || same_as_L || same_as_R;
-    int ideal[MAXPIX] = { 0 }, lo[MAXPIX] = { 0 }, hi[MAXPIX] = { 0 };
-    char desc[600], ts[300];
-    snprintf(desc, sizeof desc, "%s %dx%d %s middle line (%d,%d)-(%d,%d)%s", c->bpp == 8 ? "a8" : c->bpp == 4 ? "a4" : "a1", W, H, trap_str(&T, ts, sizeof ts),
-             M.p1.x, M.p1.y, M.p2.x, M.p2.y, strict ? " [lines >= 2 ulp apart or identical: strict]" : "");
-    if (vf_verbose) printf("  case: %s\n", desc);
+    c12_counts rc; memset(&rc, 0, sizeof rc); int *ideal = rc.ideal, *lo = rc.lo, *hi = rc.hi;
+    const char *desc = NULL;
+    G.kind = 2; G.bpp = c->bpp; G.W = W; G.H = H; G.T = T; G.M = M; G.strict = strict; g_desc_ok = 0;
+    if (vf_verbose) printf("  case: %s\n", cur_desc());
     soft_set = 0;
     timg A, B; timg_init(&A, c->fmt, W, H); timg_init(&B, c->fmt, W, H);
     pixman_rasterize_trapezoid(A.pi, &T, 0, 0);
     pixman_rasterize_trapezoid(B.pi, &T1, 0, 0); pixman_rasterize_trapezoid(B.pi, &T2, 0, 0); vf_count_libcalls(3);
-    c12_ref_trap(g, W, H, &T, 0, 0, ideal, lo, hi);
-    check_same(g, &A, &B, strict, NULL, ideal, lo, hi, "c12-shared-edge-not-additive", "whole (A) vs the two parts abutting along the middle line (B)", desc);
+    c12_ref_trap(g, W, H, &T, 0, 0, &rc);
+    check_same(g, &A, &B, strict, NULL, &rc, "c12-shared-edge-not-additive", "whole (A) vs the two parts abutting along the middle line (B)", desc);
     /* the two parts drawn in the other order */
     if (!vf_failed()) {
         timg_reset(&A, NULL);
         pixman_rasterize_trapezoid(A.pi, &T2, 0, 0); pixman_rasterize_trapezoid(A.pi, &T1, 0, 0); vf_count_libcalls(2);
-        check_same(g, &A, &B, 1, NULL, ideal, lo, hi, "c12-shared-edge-order", "parts drawn right-then-left (A) vs left-then-right (B)", desc);
+        check_same(g, &A, &B, 1, NULL, &rc, "c12-shared-edge-order", "parts drawn right-then-left (A) vs left-then-right (B)", desc);
     }
     {
         int partial = 0; for (int i = 0; i < W * H; i++) if (ideal[i] > 0 && (g->bpp == 1 || ideal[i] < g->maxv)) partial = 1;
@@ -484,8 +547,8 @@ static void edge_setup(tctx *c, pixman_format_code_t fmt, int W, int H, int ysz,
 {
     memset(c, 0, sizeof *c);
     c->fmt = fmt; c->bpp = PIXMAN_FORMAT_BPP(fmt); c->W = W; c->H = H; c->g = c12_mkgrid(c->bpp);
-    make_Y(c, ysz); make_X(c, xsz);
-    int dims[] = { c->npairs, c->nX, c->nX, c->nX, c->nX, c->nX, c->nX, nvar, nvar, nvar };
+    make_Y(c, ysz); make_X(c, xsz); set_vars(c, nvar);
+    int dims[] = { c->npairs, c->nX, c->nX, c->nX, c->nX, c->nX, c->nX, c->nvar, c->nvar, c->nvar };
     c->nd = 10; memcpy(c->dims, dims, sizeof dims);
 }
 
@@ -510,16 +573,16 @@ static void tri_case(uint64_t idx, void *vctx)
     int d[6]; vf_decode(idx, c->dims, c->nd, d);
     int W = c->W, H = c->H, ox = d[3] - 1, oy = d[4] - 1;
     pixman_triangle_t tri = { c->P[d[0]], c->P[d[1]], c->P[d[2]] };
-    int ideal[MAXPIX] = { 0 }, lo[MAXPIX] = { 0 }, hi[MAXPIX] = { 0 };
-    char desc[400], ts[200];
-    snprintf(desc, sizeof desc, "%s %dx%d x_off=%d y_off=%d %s", c->bpp == 8 ? "a8" : c->bpp == 4 ? "a4" : "a1", W, H, ox, oy, tri_str(&tri, ts, sizeof ts));
-    if (vf_verbose) printf("  case: %s\n", desc);
+    c12_counts rc; memset(&rc, 0, sizeof rc); int *ideal = rc.ideal, *lo = rc.lo, *hi = rc.hi;
+    const char *desc = NULL;
+    G.kind = 3; G.bpp = c->bpp; G.W = W; G.H = H; G.ox = ox; G.oy = oy; G.tri = tri; g_desc_ok = 0;
+    if (vf_verbose) printf("  case: %s\n", cur_desc());
     soft_set = 0;
     timg A, B; timg_init(&A, c->fmt, W, H); timg_init(&B, c->fmt, W, H);
     pixman_add_triangles(A.pi, ox, oy, 1, &tri); vf_count_libcalls(1);
-    c12_ref_tri(g, W, H, &tri, ox, oy, ideal, lo, hi);
+    c12_ref_tri(g, W, H, &tri, ox, oy, &rc);
     if (vf_verbose) { char a[700], b[500]; printf("  got   %s\n  ideal %s\n", timg_str(&A, a, sizeof a), arr_str(ideal, W, H, c->bpp, b, sizeof b)); }
-    check_vs_ref(g, &A, NULL, ideal, lo, hi, "add_triangles vs ideal sample count of the triangle", desc);
+    check_vs_ref(g, &A, NULL, &rc, "add_triangles vs ideal sample count of the triangle", desc);
     /* vertex order must not matter: compare with the sorted order */
     {
         pixman_triangle_t s = tri; pixman_point_fixed_t t;
@@ -528,7 +591,7 @@ static void tri_case(uint64_t idx, void *vctx)
         if (pt_less(&s.p2, &s.p1)) { t = s.p1; s.p1 = s.p2; s.p2 = t; }
         timg_reset(&B, NULL);
         pixman_add_triangles(B.pi, ox, oy, 1, &s); vf_count_libcalls(1);
-        check_same(g, &A, &B, 1, NULL, ideal, lo, hi, "c12-triangle-vertex-order", "given vertex order (A) vs sorted vertex order (B)", desc);
+        check_same(g, &A, &B, 1, NULL, &rc, "c12-triangle-vertex-order", "given vertex order (A) vs sorted vertex order (B)", desc);
     }
     /* two-trapezoid decomposition written independently: split at the middle vertex, long side vs the two short sides */
     {
@@ -555,7 +618,7 @@ static void tri_case(uint64_t idx, void *vctx)
         }
         timg_reset(&B, NULL);
         if (n) { pixman_add_trapezoids(B.pi, (int16_t)ox, oy, n, tz); vf_count_libcalls(1); }
-        check_same(g, &A, &B, 0, NULL, ideal, lo, hi, "c12-triangle-decomposition", "add_triangles (A) vs add_trapezoids of the two-trapezoid decomposition (B)", desc);
+        check_same(g, &A, &B, 0, NULL, &rc, "c12-triangle-decomposition", "add_triangles (A) vs add_trapezoids of the two-trapezoid decomposition (B)", desc);
     }
     /* composite_triangles, ADD of an opaque solid into a zeroed image of the mask format = direct route; two triangles */
     if (!vf_failed()) {
@@ -563,9 +626,10 @@ static void tri_case(uint64_t idx, void *vctx)
         pixman_image_t *src = pixman_image_create_solid_fill(&white);
         pixman_triangle_t two[2] = { tri, { c->P[0], c->P[c->np - 1], c->P[c->np / 2] } };
         timg_reset(&A, NULL); timg_reset(&B, NULL);
+        pixman_add_triangles(A.pi, ox, oy, 0, two); pixman_composite_triangles(PIXMAN_OP_ADD, src, B.pi, c->fmt, 0, 0, ox, oy, 0, two);   /* no triangles: no effect */
         pixman_add_triangles(A.pi, ox, oy, 2, two);
         pixman_composite_triangles(PIXMAN_OP_ADD, src, B.pi, c->fmt, 0, 0, ox, oy, 2, two); vf_count_libcalls(2);
-        check_same(g, &A, &B, 1, NULL, ideal, lo, hi, "c12-composite-triangles-add", "add_triangles of two (A) vs composite_triangles ADD opaque, same format (B)", desc);
+        check_same(g, &A, &B, 1, NULL, &rc, "c12-composite-triangles-add", "add_triangles of two (A) vs composite_triangles ADD opaque, same format (B)", desc);
         /* temp-mask route: OVER of a translucent colour onto a8r8g8b8 with a clip, against mask + composite32 */
         if (!vf_failed()) {
             pixman_color_t col = { 0x6000, 0x4000, 0x2000, 0x8000 };
@@ -577,7 +641,7 @@ static void tri_case(uint64_t idx, void *vctx)
             pixman_composite_triangles(PIXMAN_OP_OVER, s2, D1i.pi, c->fmt, 0, 0, ox, oy, 2, two);
             pixman_add_triangles(Mk.pi, ox, oy, 2, two);
             pixman_image_composite32(PIXMAN_OP_OVER, s2, Mk.pi, D2i.pi, 0, 0, 0, 0, 0, 0, W, H); vf_count_libcalls(3);
-            check_same(g, &D1i, &D2i, 1, NULL, ideal, lo, hi, "c12-composite-triangles-route", "composite_triangles OVER onto clipped a8r8g8b8 (A) vs add_triangles into a mask + composite32 (B)", desc);
+            check_same(g, &D1i, &D2i, 1, NULL, &rc, "c12-composite-triangles-route", "composite_triangles OVER onto clipped a8r8g8b8 (A) vs add_triangles into a mask + composite32 (B)", desc);
             pixman_region32_fini(&clip);
             timg_fini(&D1i); timg_fini(&D2i); timg_fini(&Mk); pixman_image_unref(s2);
         }
@@ -648,6 +712,16 @@ static void set_clip(pixman_image_t *img, int kind, int W, int H)
     pixman_region32_fini(&r);
 }
 
+/* initial destination contents: varied, includes 0 and the maximum */
+static void fill_dst(timg *m)
+{
+    for (int y = 0; y < m->H; y++) for (int x = 0; x < m->W; x++) {
+        int a = (x * 53 + y * 101 + 40) & 255; if (x == 0 && y == 0) a = 0; if (x == 1 && y == 0) a = 255;
+        int v = m->bpp == 32 ? (int)(((uint32_t)a << 24) | ((a / 2) << 16) | ((a / 3) << 8) | (a / 5)) : m->bpp == 8 ? a : m->bpp == 4 ? (a & 15) : (a & 1);
+        timg_put(m, x, y, v);
+    }
+}
+
 /* dims: list, op, src, clip, doff, soff */
 static void comp_case(uint64_t idx, void *vctx)
 {
@@ -661,11 +735,7 @@ static void comp_case(uint64_t idx, void *vctx)
     pixman_image_t *src = make_src(d[2], store);
     timg D1i, D2i, Mk; timg_init(&D1i, c->dfmt, W, H); timg_init(&D2i, c->dfmt, W, H); timg_init(&Mk, c->mfmt, W, H);
     int dbpp = PIXMAN_FORMAT_BPP(c->dfmt);
-    for (int y = 0; y < H; y++) for (int x = 0; x < W; x++) {
-        int a = (x * 53 + y * 101 + 40) & 255; if (x == 0 && y == 0) a = 0; if (x == 1 && y == 0) a = 255;
-        int v = dbpp == 32 ? (int)(((uint32_t)a << 24) | ((a / 2) << 16) | ((a / 3) << 8) | (a / 5)) : dbpp == 8 ? a : dbpp == 4 ? (a & 15) : (a & 1);
-        timg_put(&D1i, x, y, v); timg_put(&D2i, x, y, v);
-    }
+    fill_dst(&D1i); fill_dst(&D2i);
     set_clip(D1i.pi, d[3], W, H); set_clip(D2i.pi, d[3], W, H);
     char desc[1200]; size_t l = 0;
     l += snprintf(desc + l, sizeof desc - l, "op=%s src=%d dst=%s mask_format=a%d %dx%d clip=%d x_dst=%d y_dst=%d x_src=%d y_src=%d traps:", comp_opname[d[1]], d[2],
@@ -685,10 +755,21 @@ static void comp_case(uint64_t idx, void *vctx)
     if (!vf_in_confirm) vf_outcome(vf_hash64(D1i.bits, (size_t)D1i.stride * H, 1000 + d[1]));
     if (!timg_same(&D1i, &D2i)) {
         char a[700], b[700], m[300];
-        /* classify: operators for which the library composites a destination-sized box placed at (x_dst,y_dst) */
+        /* Known defect, narrowly: for operators where a zero source has an effect the library composites a destination-sized
+         * box of the *trapezoid* coordinate space, [0,W)x[0,H), placed at (x_dst,y_dst), instead of the whole destination.
+         * Emulate exactly that; anything else is a plain route difference. */
+        const char *key = "c12-composite-route-differs";
         int full = !(op == PIXMAN_OP_DST || op == PIXMAN_OP_OVER || op == PIXMAN_OP_OVER_REVERSE || op == PIXMAN_OP_OUT_REVERSE || op == PIXMAN_OP_ATOP ||
                      op == PIXMAN_OP_XOR || op == PIXMAN_OP_ADD);
-        const char *key = (full && (xd || yd)) ? "c12-composite-fulldest-op-with-dst-offset" : "c12-composite-route-differs";
+        if (full && (xd || yd)) {
+            timg D3, M0; timg_init(&D3, c->dfmt, W, H); timg_init(&M0, c->mfmt, W, H);
+            fill_dst(&D3);
+            set_clip(D3.pi, d[3], W, H);
+            for (int i = 0; i < tl->n; i++) pixman_rasterize_trapezoid(M0.pi, &tl->t[i], 0, 0);
+            pixman_image_composite32(op, src, M0.pi, D3.pi, xs, ys, 0, 0, xd, yd, W, H);
+            if (timg_same(&D1i, &D3)) key = "c12-composite-fulldest-op-with-dst-offset";
+            timg_fini(&D3); timg_fini(&M0);
+        }
         vf_violation(key, "composite_trapezoids (A) differs from rasterise-to-mask + composite32 (B); %s; A %s B %s mask %s", desc, timg_str(&D1i, a, sizeof a),
                      timg_str(&D2i, b, sizeof b), timg_str(&Mk, m, sizeof m));
     } else if (covered && partial && !vf_in_confirm && vf_want_sample()) {
@@ -722,6 +803,8 @@ static void comp_setup(compctx *c, pixman_format_code_t dfmt, pixman_format_code
         traplist *t = &c->lists[n++]; t->n = 3; t->t[0] = c->lists[pick[i]].t[0]; t->t[0].bottom = t->t[0].top;   /* invalid */
         t->t[1] = c->lists[pick[i]].t[0]; t->t[2] = c->lists[pick[i]].t[0]; t->t[2].left.p2.y = t->t[2].left.p1.y;   /* invalid: horizontal line */
     }
+    { traplist *t = &c->lists[n++]; t->n = 1; t->t[0] = c->lists[pick[0]].t[0]; t->t[0].bottom = t->t[0].top - 5; }   /* nothing valid: no extents */
+    { traplist *t = &c->lists[n++]; t->n = 0; t->t[0] = c->lists[pick[0]].t[0]; }                                      /* n_traps == 0 */
     c->nlists = n;
     int dims[] = { n, N_COMP_OPS, 4, 3, 5, 2 };
     c->nd = 6; memcpy(c->dims, dims, sizeof dims);
@@ -772,15 +855,32 @@ int main(int argc, char **argv)
             { 1, 2, 1 }, { 2, 2, 0 }, { 3, 2, 1 }, { 4, 2, 0 }, { 5, 2, 0 }, { 6, 2, 0 },
             { 1, 3, 0 }, { 2, 3, 0 }, { 3, 3, 0 }, { 4, 3, 1 }, { 5, 3, 0 }, { 6, 3, 0 },
             { 1, 4, 0 }, { 2, 4, 0 }, { 3, 4, 0 }, { 4, 4, 0 }, { 5, 4, 0 }, { 6, 4, 1 },
-            { 9, 2, 1 }, { 16, 2, 1 }, { 13, 3, 0 } };    /* wide: the span-fill optimisation of rasterize_edges_8 needs spans >= 7 pixels */
+            { 9, 2, 1 }, { 16, 2, 1 }, { 13, 3, 0 },     /* wide: the span-fill optimisation of rasterize_edges_8 needs spans >= 7 pixels */
+            { 70, 1, 1 } };                              /* a1 only: whole 32-bit words in the middle of a span */
         for (unsigned s = 0; s < sizeof sizes / sizeof sizes[0]; s++) {
             if (!th && !sizes[s].q) continue;
+            int W = sizes[s].W, H = sizes[s].H, nbg = W * H <= 6 ? 2 : 1;
             for (int f = 0; f < 3; f++) {
                 static tctx c;
-                if (th) ras_setup(&c, fmts[f], sizes[s].W, sizes[s].H, sizes[s].q ? 2 : 1, sizes[s].q ? 2 : 1, sizes[s].q ? 3 : 2, 2, 1, 1);
-                else ras_setup(&c, fmts[f], sizes[s].W, sizes[s].H, 1, 1, 2, sizes[s].W * sizes[s].H <= 6 ? 2 : 1, 1, 1);
-                snprintf(nm, sizeof nm, "raster-%s-%dx%d", fmtname(fmts[f]), sizes[s].W, sizes[s].H);
+                if (W == 70 && f != 0) continue;
+                /* quick, and the non-main sizes of thorough: y 11 values, x 8 values, end-point variants {0,1} per edge;
+                 * thorough main sizes: x 12 values, variants {0,1,2,3} */
+                if (th && sizes[s].q) ras_setup(&c, fmts[f], W, H, 1, 2, 4, nbg, 1, 1);
+                else ras_setup(&c, fmts[f], W, H, 1, 1, 2, th ? 2 : nbg, 1, 1);
+                snprintf(nm, sizeof nm, "raster-%s-%dx%d", fmtname(fmts[f]), W, H);
                 vf_space_run(nm, vf_product(c.dims, c.nd), ras_case, &c);
+                /* quick: the extrapolating variant (edge lines that end inside (top,bottom)) on two sizes */
+                if (!th && ((W == 3 && H == 2) || (W == 6 && H == 4))) {
+                    ras_setup(&c, fmts[f], W, H, 1, 1, -3, 1, 1, 0);
+                    snprintf(nm, sizeof nm, "raster-extrap-%s-%dx%d", fmtname(fmts[f]), W, H);
+                    vf_space_run(nm, vf_product(c.dims, c.nd), ras_case, &c);
+                }
+                /* thorough: the large y alphabet (21 values: every sample-row neighbourhood, quarter positions) on three sizes */
+                if (th && ((W == 1 && H == 1) || (W == 3 && H == 2) || (W == 6 && H == 4))) {
+                    ras_setup(&c, fmts[f], W, H, 2, 2, 2, 1, 1, 1);
+                    snprintf(nm, sizeof nm, "raster-bigY-%s-%dx%d", fmtname(fmts[f]), W, H);
+                    vf_space_run(nm, vf_product(c.dims, c.nd), ras_case, &c);
+                }
             }
         }
     }
@@ -791,7 +891,7 @@ int main(int argc, char **argv)
             if (!th && !sizes[s].q) continue;
             for (int f = 0; f < 3; f++) {
                 static tctx c;
-                off_setup(&c, fmts[f], sizes[s].W, sizes[s].H, th ? 1 : 0, th ? 1 : 0, th ? 3 : 2);
+                off_setup(&c, fmts[f], sizes[s].W, sizes[s].H, th ? 1 : 0, th ? 1 : 0, th ? 4 : 2);
                 snprintf(nm, sizeof nm, "offsets-%s-%dx%d", fmtname(fmts[f]), sizes[s].W, sizes[s].H);
                 vf_space_run(nm, vf_product(c.dims, c.nd), off_case, &c);
             }
@@ -799,13 +899,13 @@ int main(int argc, char **argv)
     }
     /* (3) shared edge */
     {
-        struct { int W, H, q; } sizes[] = { { 3, 2, 1 }, { 9, 2, 1 }, { 6, 4, 0 }, { 1, 1, 0 } };
+        struct { int W, H, q; } sizes[] = { { 3, 2, 1 }, { 9, 2, 1 }, { 6, 4, 0 } };
         for (unsigned s = 0; s < sizeof sizes / sizeof sizes[0]; s++) {
             if (!th && !sizes[s].q) continue;
             for (int f = 0; f < 3; f++) {
                 static tctx c;
-                edge_setup(&c, fmts[f], sizes[s].W, sizes[s].H, 0, th ? 1 : 0, th ? 2 : 2);
-                if (!th && sizes[s].W == 9 && f != 2) continue;
+                edge_setup(&c, fmts[f], sizes[s].W, sizes[s].H, 0, th ? 1 : 0, 2);
+                if (sizes[s].W == 9 && f != 2) continue;     /* the wide size is there for the a8 span-fill optimisation */
                 snprintf(nm, sizeof nm, "shared-edge-%s-%dx%d", fmtname(fmts[f]), sizes[s].W, sizes[s].H);
                 vf_space_run(nm, vf_product(c.dims, c.nd), edge_case, &c);
             }
